@@ -45,6 +45,8 @@ def build(rng, casedir, index, nrec=None, untagged=True, force_all_known=False, 
             chrom_of[n] = c["name"]
     if nrec is None:
         nrec = rng.choice([2, 5, rng.randint(6, 60), rng.randint(30, 200)])
+        if rng.random() < 0.02:
+            nrec = 0  # an empty GAF sorts to an empty GAF (and an empty index)
     walks = []
     anchors = None
     if few_anchors:
